@@ -220,7 +220,7 @@ package rapid
 // stream every newly recorded word is the masked - hence not larger - word it consumed; groups stay well-formed.
 //@ define recWF(r) = 0 <= r.dataLen && forall(k, 0, len(r.groups), 0 <= r.groups[k].begin && r.groups[k].begin <= len(r.data) && (r.groups[k].end == -1 || r.groups[k].begin <= r.groups[k].end && r.groups[k].end <= len(r.data)) && implies(r.groups[k].discard, r.groups[k].end >= 0) && implies(!r.groups[k].discard, r.groups[k].begin != r.groups[k].end))
 //@ define bufRun(s) = arr(s.buf) == old(arr(s.buf)) && off(s.buf) + len(s.buf) == old(off(s.buf) + len(s.buf)) && len(s.buf) <= old(len(s.buf)) && s.persist == old(s.persist) && implies(s.persist, len(s.data) - old(len(s.data)) == old(len(s.buf)) - len(s.buf) && forall(k, old(len(s.data)), len(s.data), s.data[k] <= old(s.buf[k - len(s.data)])) && forall(k, 0, old(len(s.data)), s.data[k] == old(s.data[k])) && (arr(s.data) == old(arr(s.data)) || fresh(arr(s.data))) && (arr(s.groups) == old(arr(s.groups)) || fresh(arr(s.groups))))
-//@ define streamRely(x) = implies(hasType(x, bufBitStream), recWF(deref(x, bufBitStream)) && bufRun(deref(x, bufBitStream)))
+//@ define streamRely(x) = implies(hasType(x, bufBitStream), recWF(deref(x, bufBitStream)) && bufRun(deref(x, bufBitStream))) && implies(hasType(x, randomBitStream), recWF(deref(x, randomBitStream)) && deref(x, randomBitStream).persist == old(deref(x, randomBitStream).persist))
 
 //@ callback func(*T)
 //@   params fn, t
@@ -436,9 +436,9 @@ package rapid
 //@ func (*randomBitStream).drawBits
 //@   requires [C03,C04] n >= 0
 //@   requires [C04] 0 <= s.dataLen && s.dataLen < math.MaxInt
-//@   ensures [C03,C04] implies(n <= 64, result <= mask(n)) && implies(n > 64, result == math.MaxUint64)
+//@   ensures [C03,C04,C12] implies(n <= 64, result <= mask(n)) && implies(n > 64, result == math.MaxUint64)
 //@   ensures [C04] pos(s) == old(pos(s)) + 1 && s.persist == old(s.persist)
-//@   ensures [C04] implies(s.persist, s.data[old(len(s.data))] == result)
+//@   ensures [C04,C12] implies(s.persist, s.data[old(len(s.data))] == result)
 //@   modifies all(s.ctx), s.data, s.dataLen, elems(s.data)
 
 //@ func (*recordedBits).beginGroup
@@ -713,6 +713,7 @@ package rapid
 //@   loop 1 invariant [C17] -1 <= rangeindex && rangeindex < len(data) - 1 && len(buf) == rangeindex + 1 && len(data) >= 1
 
 //@ func checkFailFile
+//@   at checkOnce#1 assert [C01,C17] clean(arg0) && hasType(arg0.s, bufBitStream) && len(deref(arg0.s, bufBitStream).buf) == len(buf) && arr(deref(arg0.s, bufBitStream).buf) == arr(buf)
 //@   noframe "replays the property"
 //@   requires [C17] prop != nil
 //@   ensures [C17] tbFailed == old(tbFailed) && tbErrors == old(tbErrors)
@@ -742,9 +743,18 @@ package rapid
 //@   loop 1 invariant [C06,C16] -1 <= rangeindex && rangeindex < len(windowsReservedNames)
 
 //@ func shrink
-//@   trusted "placeholder until the shrinker contracts below are in place"
-//@   requires prop != nil && err != nil
-//@   ensures result1 != nil
+//@   noframe "runs the property"
+//@   assumes-pre !flags.debugvis
+//@   requires [C05] prop != nil && err != nil && err.traceback != "    <no error>\n" && rec.persist && recWF(rec)
+//@   ensures [C05] result1 != nil
+//@   modifies heap, drawn, lockmode, cancelled
+
+// The pass loop of the shrinker is not verified yet (its passes change s.rec/s.err only through accept, whose
+// contract is proved); what IS checked is that it starts from the pruned, well-formed recording.
+//@ func (*shrinker).shrink
+//@   trusted "pass loop not under proof yet; precondition checked at its call site"
+//@   requires [C05] shrInv(s) && forall(k, 0, len(s.rec.groups), !s.rec.groups[k].discard)
+//@   ensures result1 != nil && flags.debugvis == old(flags.debugvis)
 //@   modifies heap, drawn, lockmode, cancelled
 
 //@ func doCheck
@@ -906,7 +916,7 @@ package rapid
 //@ func (*recordedBits).prune
 //@   requires [C04,C05] rec.persist && recWF(rec)
 //@   ensures [C04,C05] len(rec.data) <= old(len(rec.data)) && implies(len(rec.data) == old(len(rec.data)), forall(k, 0, len(rec.data), rec.data[k] == old(rec.data[k])))
-//@   ensures [C04,C05] recWF(rec) && rec.persist
+//@   ensures [C04,C05] recWF(rec) && rec.persist && forall(k, 0, len(rec.groups), !rec.groups[k].discard)
 //@   modifies rec.data, rec.groups, elems(rec.data), elems(rec.groups)
 //@   loop 0 invariant [C04,C05] forall(k, 0, i, !rec.groups[k].discard)
 //@   loop 0 invariant [C04,C05] 0 <= i && recWF(rec) && rec.persist && len(rec.data) <= old(len(rec.data)) && implies(len(rec.data) == old(len(rec.data)), forall(k, 0, len(rec.data), rec.data[k] == old(rec.data[k])))
